@@ -47,20 +47,22 @@ _state = re.compile(r"^State \d+:\n", re.M)
 
 
 def enumerate_transforms(ctx, maxops, order):
-    """TLC explores the builder model; every distinct state is one transform: (hist, kinds, final)."""
+    """TLC explores the builder model; every distinct state is one transform.  Returns the states as text (sorted:
+    TLC prints a state canonically, so the order does not depend on the worker schedule)."""
     dump = os.path.join(ctx.workdir, "states_%s%d" % (order, maxops))
     res = tlc.check(ctx, "TransformPreview", cfg_text=cfg(maxops, order), extra=("-dump", dump),
                     label="builder model <=%d calls, order %s" % (maxops, order), timeout=840)
-    txt = open(dump + ".dump").read()
+    with open(dump + ".dump") as f:
+        parts = sorted(_state.split(f.read())[1:])
     os.unlink(dump + ".dump")
-    cases = []
-    for part in _state.split(txt)[1:]:
-        st = to_py(parse_state(part))
-        cases.append({"ops": st["hist"], "spec": st["out"]})
-    if len(cases) != res["distinct"]:
-        ctx.machinery("state dump has %d states, TLC reports %d" % (len(cases), res["distinct"]))
-    cases.sort(key=lambda c: repr(c["ops"]))
-    return cases
+    if len(parts) != res["distinct"]:
+        ctx.machinery("state dump has %d states, TLC reports %d" % (len(parts), res["distinct"]))
+    return parts
+
+
+def parse_case(part):
+    st = to_py(parse_state(part))
+    return {"ops": st["hist"], "spec": st["out"]}
 
 
 class Timeout(BaseException):
@@ -220,10 +222,13 @@ def run_one(case, fl, dest):
 def replay_chunk(sub, chunk):
     dest = os.path.join(sub.workdir, "wt")
     rows = sub.cov.setdefault("_collect", [])
+    parsed = {}
     for ci, fl in chunk:
-        case = CASES[ci]
+        if ci not in parsed:
+            parsed[ci] = parse_case(CASES[ci])       # CASES: TLC's states as text, parsed here (in parallel)
+        case = parsed[ci]
         r = run_one(case, fl, dest)
-        rows.append({"ci": ci, "fl": fl, "impl": r})
+        rows.append({"ci": ci, "fl": fl, "impl": r, "ops": case["ops"], "spec": case["spec"]})
         sub.count(1)
         if case["spec"]["kinds"][fl] or len(case["ops"]) >= 2:
             sub.nontrivial((ci, fl))
@@ -274,32 +279,30 @@ def run(ctx):
     global CASES
     env.init()
     maxops = 3
-    CASES = enumerate_transforms(ctx, maxops, "A")
+    parts = enumerate_transforms(ctx, maxops, "A")
     for w in ("WitnessLoop", "WitnessCleanMove"):
         tlc.check(ctx, "TransformPreview", cfg_text=cfg(2, "A", (w,)), expect_violation=w, label="witness " + w)
-    seen = set()
-    for c in CASES:
-        seen |= set(c["spec"]["kinds"]["bzr"])
-    missing = [f for f in FAMILIES if f not in seen]
+    missing = [f for f in FAMILIES if not any('"%s"' % f in p for p in parts)]
     if missing:
         ctx.machinery("conflict families never produced by the enumeration: %s" % missing)
-    n_a = len(CASES)
+    n_a = len(parts)
     if not ctx.quick and os.environ.get("VF_C14_ORDERS", "AB") == "AB":
-        CASES = CASES + enumerate_transforms(ctx, maxops, "B")
+        parts = parts + enumerate_transforms(ctx, maxops, "B")
+    if ctx.quick:
+        parts = [parts[i] for i in sorted(ctx.rng.sample(range(len(parts)), min(len(parts), 1000)))]
+    else:
+        ctx.cov["exhaustive"] = True
+    CASES = parts
     for fl in tc.FLAVOURS:
         BASES[fl] = tc.make_base(ctx.workdir, fl, TREE)
     idx = list(range(len(CASES)))
-    if ctx.quick:
-        idx = sorted(ctx.rng.sample(idx, min(len(idx), 1000)))
-    else:
-        ctx.cov["exhaustive"] = True
     core.fork_map(ctx, replay_chunk, [(i, fl) for i in idx for fl in tc.FLAVOURS], chunks_per_proc=8)
     rows = ctx.collected
     if not rows:
         ctx.machinery("no real executions recorded")
     if os.environ.get("VF_C14_DUMP"):
         import json
-        json.dump([dict(r, ops=CASES[r["ci"]]["ops"], spec=CASES[r["ci"]]["spec"]) for r in rows], open(os.environ["VF_C14_DUMP"], "w"))
+        json.dump(rows, open(os.environ["VF_C14_DUMP"], "w"))
     ctx.cov["transforms_enumerated"] = n_a
     ctx.cov["transforms_run"] = len(idx)
     stats = {}
@@ -311,12 +314,14 @@ def run(ctx):
     for need in ("conflict-free", "resolve:clean", "resolve:malformed"):
         if not stats.get(need):
             ctx.machinery("no real execution with outcome %r" % need)
-    slim = [{"i": i, "fl": r["fl"], "spec": CASES[r["ci"]]["spec"],
+    slim = [{"i": i, "fl": r["fl"], "spec": r["spec"],
              "impl": {k: v for k, v in r["impl"].items() if k not in ("sites", "resolver_notes", "finalize")}} for i, r in enumerate(rows)]
-    ctx.sample({"calls": CASES[rows[0]["ci"]]["ops"], "declares": CASES[rows[0]["ci"]]["spec"], "flavour": rows[0]["fl"]})
-    for row, v in tc.judge(ctx, "TransformPreviewTrace", slim, TRACE_CFG):
+    for r in rows[:: max(1, len(rows) // 3)][:3]:
+        ctx.sample({"calls": r["ops"], "declares": r["spec"], "flavour": r["fl"],
+                    "observed": {k: r["impl"][k] for k in ("raw", "resolve", "passes", "preview", "apply", "unchanged")}})
+    for row, v in tc.judge(ctx, "TransformPreviewTrace", slim, TRACE_CFG, chunk=12000):
         full = rows[row["i"]]
-        case = CASES[full["ci"]]
+        case = full
         rep = {"flavour": full["fl"], "calls": case["ops"], "declared": case["spec"]["kinds"], "observed": full["impl"]}
         if v["failed"]:
             ctx.violation(classify(full, v["failed"]), "%s tree, calls %s: %s" % (
